@@ -170,7 +170,7 @@ Section Race.
     /\ is_error (fst (snd (handle cfg pol user s r))) = true.
   Proof.
     intros s r Hw Hst. apply stale_bool in Hst. unfold handle.
-    destruct r as [q ct b im inm|q im| | | | | | |]; try contradiction.
+    destruct r as [q ct b im inm|q im| | | | | | | |]; try contradiction.
     - destruct im as [| |[o|c|]]; try contradiction. destruct Hw as [-> ->].
       destruct (do_put cfg pol (ensure_home pol s user) p ct b (CTag (EtItem o0)) inm) as [s2 [st pl]] eqn:E2.
       destruct (put_if_match_fails _ _ _ _ _ _ _ _ _ _ _ E2 Hst) as [-> He]. split; [reflexivity|exact He].
@@ -184,7 +184,7 @@ Section Race.
     changing o0 (snd (handle cfg pol user s r)) = true -> stale (fst (handle cfg pol user s r)) p o0.
   Proof.
     intros s r Hs Hw Hch. pose proof (ensure_home_inv pol s user Hs) as Hh. unfold handle in *.
-    destruct r as [q ct b im inm|q im| | | | | | |]; try contradiction.
+    destruct r as [q ct b im inm|q im| | | | | | | |]; try contradiction.
     - destruct im as [| |[o|c|]]; try contradiction. destruct Hw as [-> ->].
       destruct (do_put cfg pol (ensure_home pol s user) p ct b (CTag (EtItem o0)) inm) as [s2 r2] eqn:E2.
       cbn [fst snd] in *. exact (put_success_stale_or_same _ _ _ _ _ _ _ _ _ _ _ Hh E2 Hch).
@@ -275,7 +275,7 @@ Section Create.
     /\ is_error (fst (snd (handle cfg pol user s r))) = true.
   Proof.
     intros s r Hw Hex. unfold handle.
-    destruct r as [q ct b im inm| | | | | | | |]; try contradiction.
+    destruct r as [q ct b im inm| | | | | | | | |]; try contradiction.
     destruct inm; [|contradiction]. cbn in Hw. subst q.
     destruct (do_put cfg pol (ensure_home pol s user) p ct b im true) as [s2 [st pl]] eqn:E2.
     destruct (put_if_none_match_fails _ _ _ _ _ _ _ _ _ _ E2 Hex) as [-> He]. split; [reflexivity|exact He].
@@ -286,7 +286,7 @@ Section Create.
     succeeded (snd (handle cfg pol user s r)) = true -> exists_node (resolve (fst (handle cfg pol user s r)) p) = true.
   Proof.
     intros s r Hs Hw Hch. pose proof (ensure_home_inv pol s user Hs) as Hh. unfold handle in *.
-    destruct r as [q ct b im inm| | | | | | | |]; try contradiction.
+    destruct r as [q ct b im inm| | | | | | | | |]; try contradiction.
     destruct inm; [|contradiction]. cbn in Hw. subst q.
     destruct (do_put cfg pol (ensure_home pol s user) p ct b im true) as [s2 r2] eqn:E2.
     cbn [fst snd] in *. exact (put_success_exists _ _ _ _ _ _ _ _ _ _ Hh E2 Hch).
